@@ -95,6 +95,9 @@ func randStyle(r *Rng, renameFrom []string) *asm.Style {
 	if r.Chance(1, 6) {
 		s.NoFinalNewline = true
 	}
+	if r.Chance(1, 4) {
+		s.ScatterDirectives = true
+	}
 	if r.Chance(1, 10) {
 		s.LongCommentPct = 30
 		s.CommentPct, s.TrailPct = 20, 30
